@@ -1,5 +1,6 @@
 import SamplyModel.Proto
 import SamplyModel.Model.PanicKernels
+import SamplyModel.Model.BreakpadServe
 /-!
 Line protocol for C08. A case is a list of operations; every operation yields exactly one output line.
 
@@ -17,9 +18,17 @@ Kernel operations (the model predicts the value; byte strings are hex, `-` = emp
     bpline <a> <s> <line> <file> <addr>  → line <n|none> | none | panic
     bpinline <depth> <a> <s> <addr> → frames <n> | none | panic
 
+    bpmap <sym> <symindex> <addr>*  → served unparsed | served notbreakpad
+                                      | served <look> ; <look> ; …      one `.sym` text served with a stored index
+                                        (valid / stale / corrupted), lookups on ONE symbol map (`BPC.serve`);
+                                        <look> = none | panic
+                                               | sym <addr> <size|none> <name> <n|none> [, frame <fn|none> <file|none> <line|none>]*
+
 Exploration operations (third-party parsers in the loop; the model only states the property: the call
-returns): `file …` → `set`; `api <path> <body>`, `lookup …`, `symcreate …`, `debugid …` → `fine`.
-The implementation prints `panic`, `hang`, `badjson`, `notobject` when the property is violated.
+returns): `file …` → `set`; `api <path> <body>`, `lookup …`, `symcreate …`, `debugid …`, `bigsym …` → `fine`.
+The implementation prints `panic`, `hang`, `badjson`, `notobject`, `badshape <why>`, `short-listing …`,
+`neg-offset`, `empty-frames`, `slow …` when the property is violated; the runner prints `crash:<how>` for a
+case whose child process died (stack overflow, out of memory, abort).
 -/
 namespace C08
 open PK Proto
@@ -57,6 +66,23 @@ def showPath : MappedPathV → String
   | .s3 a b c => s!"ok s3 {bytesHex a} {bytesHex b} {bytesHex c}"
   | .cargo a b c d => s!"ok cargo {bytesHex a} {bytesHex b} {bytesHex c} {bytesHex d}"
 
+def optHex : Option (List UInt8) → String
+  | none => "none"
+  | some b => bytesHex b
+
+def showLook : BP.Look → String
+  | .panic => "panic"
+  | .none => "none"
+  | .found r =>
+    let n := match r.frames with | none => "none" | some fs => toString fs.length
+    let frs := (r.frames.getD []).map fun f => s!" , frame {optHex f.function} {optHex f.file} {optNat f.line}"
+    s!"sym {r.symAddr} {optNat r.size} {bytesHex r.name} {n}" ++ String.join frs
+
+def showServed : BPC.Served → String
+  | .unparsed => "served unparsed"
+  | .notBreakpad => "served notbreakpad"
+  | .looks ls => "served " ++ " ; ".intercalate (ls.map showLook)
+
 def modelOp (l : String) : String :=
   match words l with
   | ["codeid", s] => render (codeIdFromStr (hexBytes s)) showCodeId (fun _ => "err")
@@ -85,11 +111,13 @@ def modelOp (l : String) : String :=
   | ["bpinline", d, a, s, addr] =>
     render (bpInline (hexBytes d) (hexBytes a) (hexBytes s) (nat! addr))
       (fun o => match o with | some n => s!"frames {n}" | none => "none") (fun _ => "err")
+  | "bpmap" :: t :: i :: addrs => showServed (BPC.serve (hexBytes t) (hexBytes i) (addrs.map nat!))
   | "file" :: _ => "set"
   | "api" :: _ => "fine"
   | "lookup" :: _ => "fine"
   | "symcreate" :: _ => "fine"
   | "debugid" :: _ => "fine"
+  | "bigsym" :: _ => "fine"
   | _ => "bad-op"
 
 def model (ls : List String) : List String := ls.map modelOp
@@ -108,12 +136,16 @@ def judge (ops impl : List String) : Bool × String :=
       let kind := opKind o
       let w := words r
       if w.isEmpty then (false, s!"[empty] op {k} ({kind}): no outcome") else
+      if r.startsWith "crash:" then (false, s!"[crash] op {k} ({kind}): the process running the case died ({r})") else
       if w.contains "panic" then (false, s!"[panic] op {k} ({kind}): the implementation panicked") else
       if w.contains "hang" then (false, s!"[hang] op {k} ({kind}): no answer within the watchdog time") else
       if w.head? = some "badjson" then (false, s!"[badjson] op {k} ({kind}): response is not valid JSON") else
       if w.head? = some "notobject" then (false, s!"[notobject] op {k} ({kind}): response is not a JSON object") else
+      if w.head? = some "badshape" then (false, s!"[badshape] op {k} ({kind}): response is neither a result of the endpoint nor an object with an error message ({r})") else
+      if w.head? = some "short-listing" then (false, s!"[short-listing] op {k} ({kind}): /asm/v1 listed fewer bytes than requested and available ({r})") else
+      if w.head? = some "slow" then (false, s!"[slow] op {k} ({kind}): time far beyond n log n for the input size ({r})") else
       if w.head? = some "bad-op" then (false, s!"[bad-op] op {k} ({kind}): harness did not understand the operation") else
-      if (kind == "api" || kind == "lookup" || kind == "symcreate" || kind == "debugid") && r ≠ "fine" then
+      if (kind == "api" || kind == "lookup" || kind == "symcreate" || kind == "debugid" || kind == "bigsym") && r ≠ "fine" then
         (false, s!"[unexpected] op {k} ({kind}): outcome {r}")
       else go (k + 1) os rs
     | _, _ => (false, s!"[count] {ops.length} operations but {impl.length} outcomes (a call did not return)")
